@@ -229,7 +229,7 @@ func goCanon(hashName string, d dataset) (res goRes) {
 	for _, bn := range d.bnodes() {
 		issued = append(issued, hex.EncodeToString([]byte(d.label(bn)))+":"+hex.EncodeToString([]byte(c.GetBlankNodeIdentifier(bn))))
 	}
-	sort.Strings(issued)
+	sortIssued(issued)
 	is := "-"
 	if len(issued) > 0 {
 		is = strings.Join(issued, ",")
@@ -244,6 +244,13 @@ func goCanon(hashName string, d dataset) (res goRes) {
 		ix = strings.Join(idx, ",")
 	}
 	return goRes{line: "ok " + vh.X(buf.Bytes()) + " " + is + " " + ix, bytes: buf.Bytes(), c: c}
+}
+
+// sortIssued orders "hexlabel:hexid" entries by the label alone, as the driver does (comparing the
+// whole entry would order "b10:" before "b1:" because ':' sorts after the digits).
+func sortIssued(ents []string) {
+	key := func(e string) string { return e[:strings.IndexByte(e, ':')] }
+	sort.Slice(ents, func(i, j int) bool { return key(ents[i]) < key(ents[j]) })
 }
 
 // ---------------------------------------------------------------- harness state
@@ -974,7 +981,7 @@ func (h *harness) vectors() {
 			for k, v := range want {
 				ents = append(ents, hex.EncodeToString([]byte(k))+":"+hex.EncodeToString([]byte(v)))
 			}
-			sort.Strings(ents)
+			sortIssued(ents)
 			wantS := "-"
 			if len(ents) > 0 {
 				wantS = strings.Join(ents, ",")
